@@ -9,6 +9,11 @@ def plan(tier):
         c.env.update(env_extra)
     conds += ic
     conds += C.t_upd_conds("C10", tier)
+    from vf.driver import Cond
+    from vf.props.c12 import match_conds
+    for fc in range(3):
+        conds.append(Cond("vf.h.h_disp", "h_elig", case=fc, timeout=600, env={"VF_ORACLE": "C10"}, label=f"H10-disp[fleetcfg={fc}]", weight=20))
+    conds += match_conds("h_step_disp", "C10", tier, "H10-stepdisp", fcases=(3,) if tier == "quick" else (1, 2, 3))
     return {
         "conds": conds,
         "min_classes": 150,
